@@ -91,9 +91,10 @@ def run(chk):
     ok = chk.prove()
     if not ok:
         handle_broken(chk)
+    phases = {"prove": round(time.time() - chk.t0, 1)}
 
     # ------------------------------------------------------------------ (A) permit accounting, model vs implementation
-    nA = 500 if quick else 12000
+    nA = 1000 if quick else 12000
     cases = []
     while len(cases) < nA:
         c = c16.gen_case(rng, 4 if quick else 8)
@@ -126,8 +127,9 @@ def run(chk):
             chk.violation(f"tie:permits:{sig}:{cons}", f"{req['src']} under search limit {L}: implementation {a}, model {mm}",
                           {**req, "model": ml, "impl": a, "model_out": mm}, no_input=True)
 
+    phases["A"] = round(time.time() - chk.t0, 1)
     # ------------------------------------------------------------------ (B) adversarial programs under a watchdog
-    progs = adversarial(rng, 250 if quick else 6000)
+    progs = adversarial(rng, 400 if quick else 6000)
     srcs = [f"let a = {e};" for e in progs]
     resps = run_timed(srcs, LIMITS)
     worst = (0, "")
@@ -148,6 +150,7 @@ def run(chk):
                           {"op": "gen", "f": "timed_run", "src": s, "get": ["a"], "limits": LIMITS, "got": o})
     chk.coverage["slowest_ms"] = {"ms": worst[0], "program": worst[1]}
 
+    phases["B"] = round(time.time() - chk.t0, 1)
     # ------------------------------------------------------------------ (C) the gate at the beginning of a user call
     gate = [
         # (program, limits, model request, what the model's answer means for the program)
@@ -178,6 +181,8 @@ def run(chk):
         elif not okc:
             chk.violation("tie:gate:" + mline.split()[1], f"`{s}` under {l}: implementation {got}, gate model {m}",
                           {"op": "run", "src": s, "get": ["a"], "limits": l, "model": mline, "impl": got, "model_out": m}, no_input=True)
+    phases["C"] = round(time.time() - chk.t0, 1)
+    chk.coverage["phase_end_s"] = phases
     chk.sample({"A": reqs[0]["src"], "limit": cases[0][1]})
     chk.sample({"B": srcs[0], "limits": LIMITS})
     chk.sample({"B": srcs[-1], "limits": LIMITS})
